@@ -315,6 +315,11 @@ def tensordot(lhs, rhs, axes=2):
     # position of every contracted left axis, which must be a non-negative position
     left_axes = tuple(ax if ax >= 0 else lhs.ndim + ax for ax in left_axes)
     right_axes = tuple(ax if ax >= 0 else rhs.ndim + ax for ax in right_axes)
+    for l, r in zip(left_axes, right_axes):
+        # blockwise would silently broadcast an extent of 1 against the other extent
+        nl, nr = lhs.shape[l], rhs.shape[r]
+        if nl != nr and not (np.isnan(nl) or np.isnan(nr)):
+            raise ValueError("shape-mismatch for sum")
     is_sparse = _tensordot_is_sparse(lhs) or _tensordot_is_sparse(rhs)
     if is_sparse and len(left_axes) == 1:
         concatenate = True
@@ -432,6 +437,14 @@ def matmul(a, b):
     if b.ndim == 1:
         b_is_1d = True
         b = b[:, np.newaxis]
+
+    na, nb = a.shape[-1], b.shape[-2]
+    if na != nb and not (np.isnan(na) or np.isnan(nb)):
+        # blockwise would silently broadcast an extent of 1 against the other extent
+        raise ValueError(
+            "matmul: Input operand 1 has a mismatch in its core dimension 0 "
+            f"(size {nb} is different from {na})"
+        )
 
     if a.ndim < b.ndim:
         a = a[(b.ndim - a.ndim) * (np.newaxis,)]
